@@ -91,14 +91,29 @@ def shard(i: int, n: int, tier: str, seed: int) -> Result:
     random.Random(4242).shuffle(allc)
     rngs = (ScriptedRandom(), ScriptedGenerator())
     nctx = 0
+    decoys = []
     for j, (fam, text, k, rm) in enumerate(allc[i::n]):
         rng = rngs[j % 2]
         ns = dict(ctxs.NS, RNG=rng)
+        # "the outcome is a function of the operand and the bits drawn" from the context's own generator: an equal context (same
+        # parameters, compares ==) with another generator is built first, and the context under test is built second (or derived
+        # from the first with with_params / assignment), so anything shared between equal contexts shows as draws on the wrong object
+        decoy = ScriptedRandom() if j % 2 == 0 else ScriptedGenerator()
         try:
-            ctx = eval(text, ns)
+            other = eval(text, dict(ctxs.NS, RNG=decoy))
+            how = j % 3
+            if how == 0:
+                ctx = eval(text, ns)
+            elif how == 1:
+                ctx = other.with_params(rng=rng)
+            else:
+                ctx = eval(text, ns)
+                ctx = ctx.with_params(rng=decoy).with_params(rng=rng)
+            res.count(f'twin_context:{("built_second", "with_params", "with_params_twice")[how]}')
         except Exception as e:
             res.count(f'ctor_rejected:{fam}')
             continue
+        decoys.append((decoy, text))
         nctx += 1
         det = ctx.with_params(num_randbits=0)
         fd = describe(det)            # deterministic twin for neighbours
@@ -148,6 +163,10 @@ def shard(i: int, n: int, tier: str, seed: int) -> Result:
                     _one(res, ctx, det, fd, rng, text, fam, k, rm, lo, hi, Fraction(dec), False, over_gap, present='decimal:' + dec)
         if nctx <= 2:
             res.sample({'context': text, 'gaps': [[str(g[0]), str(g[1])] for g in gaps], 'operands_per_gap': steps + 1, 'draws': 1 << kk})
+    for decoy, text in decoys:
+        if decoy.calls:
+            res.violate({'property': PROP, 'context': text, 'problem': f'draws: {len(decoy.calls)} draws were taken from the generator of another (equal) context',
+                         'mechanism': {'kind': 'draws_from_other_context'}})
     res.counters['contexts'] = nctx
     return res
 
